@@ -199,13 +199,43 @@ func c17Run(raw []byte) (*Line, error) {
 		nice := func() (float64, float64) { return niceO(on) }
 		var major, minor []float64
 		pan, _ := catch(func() { major, minor = ticks() })
-		l.I(st(pan)).Fs(major).Fs(minor)
+		// a result of more than 50000 ticks is reported as status 4 with the first 16 elements
+		// (never accepted by the comparator: Max <= 20 in every generated case; the level below
+		// the chosen one has at most Max * Base^2 ticks)
+		tooLong := func(x []float64) bool { return len(x) > 50000 }
+		cut := func(x []float64) []float64 {
+			if tooLong(x) {
+				return x[:16]
+			}
+			return x
+		}
+		stT := st(pan)
+		if !pan && (tooLong(major) || tooLong(minor)) {
+			stT = 4
+		}
+		l.I(stT).Fs(cut(major)).Fs(cut(minor))
 		l.I(len(c.Levels))
 		for _, lev := range c.Levels {
 			var n int
 			var t []float64
-			pan, _ := catch(func() { n = count(lev); t = at(lev) })
-			l.I(lev).I(n).I(st(pan)).Fs(t)
+			// TicksAtLevel is not called where CountTicks reports more than 2000 ticks (far below
+			// the natural level a tick list of 1e19 elements cannot exist): status 3
+			skipped := false
+			pan, _ := catch(func() {
+				n = count(lev)
+				if c.K == 1 && (n > 2000 || n < 0) {
+					skipped = true
+					return
+				}
+				t = at(lev)
+			})
+			status := st(pan)
+			if skipped && !pan {
+				status = 3
+			} else if !pan && tooLong(t) {
+				status, t = 4, t[:16]
+			}
+			l.I(lev).I(n).I(status).Fs(t)
 		}
 		l.I(on.Max).I(on.MinLevel).I(on.MaxLevel)
 		var a, b float64
@@ -219,7 +249,11 @@ func c17Run(raw []byte) (*Line, error) {
 		pan3, _ := catch(func() { major3, _ = ticksN() })
 		pan, _ = catch(func() { a, b = nice() })
 		l.I(st(pan)).F(a).F(b)
-		l.I(st(pan3)).Fs(major3)
+		st3 := st(pan3)
+		if !pan3 && tooLong(major3) {
+			st3, major3 = 4, major3[:16]
+		}
+		l.I(st3).Fs(major3)
 		return l, nil
 	}
 	return nil, fmt.Errorf("bad kind")
@@ -335,7 +369,34 @@ func c17LinearCase(rng *rand.Rand) c17Case {
 		eb = 10
 	}
 	var mn, mx float64
-	switch rng.Intn(5) {
+	tickDelta := false
+	switch rng.Intn(6) {
+	case 5: // ends at a tick +- delta, delta on a log grid 1e-13..1e-6 of the width (the code's slack is
+		// 1e-10 of the width), both sides, both ends, |centre|/width about 1, 30 or 1e3
+		ratio := []float64{1, 30, 950}[rng.Intn(3)]
+		j := rng.Intn(7) - 3
+		u := math.Pow(float64(eb), float64(j))
+		if base == 0 && rng.Intn(2) == 0 {
+			u *= 5
+		}
+		m := 1 + rng.Intn(15)
+		a := int(ratio * float64(m) * (0.45 + 0.5*rng.Float64()))
+		if rng.Intn(2) == 0 {
+			a = -a - m
+		}
+		w := float64(m) * u
+		d := func() float64 {
+			x := w * math.Pow(10, -13+7*rng.Float64())
+			if rng.Intn(2) == 0 {
+				x = -x
+			}
+			if rng.Intn(6) == 0 {
+				x = 0
+			}
+			return x
+		}
+		mn, mx = float64(a)*u+d(), float64(a+m)*u+d()
+		tickDelta = true
 	case 0: // ends on small integers
 		mn = float64(rng.Intn(41) - 20)
 		mx = mn + float64(1+rng.Intn(40))
@@ -368,11 +429,28 @@ func c17LinearCase(rng *rand.Rand) c17Case {
 			mn, mx = float64(float32(mn)), float64(float32(mx))
 		}
 	}
+	nearInt := rng.Intn(60) == 0
+	if nearInt {
+		// (end + slack)/spacing within rounding of an integer: min = 0, max = n/(1+1e-10) or mirrored
+		// (exercises the admissible set of the Linear floor/ceil decisions)
+		n := float64(1 + rng.Intn(60))
+		if rng.Intn(3) == 0 {
+			n *= math.Pow(float64(eb), float64(rng.Intn(5)-2))
+		}
+		mn, mx = 0, n/(1+1e-10)
+		if rng.Intn(2) == 0 {
+			mn, mx = -mx, 0
+		}
+	}
 	if !(mn < mx) {
 		mx = mn + 1
 	}
 	nat := 2 * int(math.Round(math.Log(mx-mn)/math.Log(float64(eb))))
 	c := c17Case{K: 1, Base: base, O: c17Opt(rng, nat, 6)}
+	if tickDelta && rng.Intn(4) != 0 {
+		// enough ticks allowed that the chosen level has the two ends (nearly) on ticks
+		c.O.Max = 16 + rng.Intn(5)
+	}
 	for lev := nat - 2; lev <= nat+3; lev++ {
 		c.Levels = append(c.Levels, lev)
 	}
@@ -395,7 +473,7 @@ func c17LinearCase(rng *rand.Rand) c17Case {
 		c.Base = []int{1, -2}[rng.Intn(2)]
 		c.Levels = nil
 	}
-	if rng.Intn(25) == 0 && c.Base != 1 && c.Base >= 0 {
+	if rng.Intn(40) == 0 && c.Base != 1 && c.Base >= 0 {
 		// level limits (and per-level observations) around the level where the spacing eb^(l/2)
 		// (x5) overflows float64 (findings hI-c17-1, hI-c17-2)
 		ov := 2 * int(math.Ceil(1024*math.Ln2/math.Log(float64(eb))))
@@ -409,6 +487,22 @@ func c17LinearCase(rng *rand.Rand) c17Case {
 		}
 		if c.Levels != nil {
 			c.Levels = []int{ov - 3, ov - 2, ov - 1, ov, ov + 1, ov + 4}
+		}
+	}
+	if c.NO == nil && c.O.MinLevel < 400 && rng.Intn(40) == 0 && c.Base != 1 && c.Base >= 0 {
+		// level limits (and CountTicks observations) far BELOW the natural level, where the number
+		// of ticks passes 2^53 (float-rounded) and 2^63 (CountTicks saturates at maxInt): finding hI-c17-3
+		d0 := 126 / math.Log2(float64(eb)) // levels below the natural one at which the count reaches 2^63
+		c.O.MaxLevel = nat - int(d0*(0.7+0.9*rng.Float64()))
+		c.O.MinLevel = c.O.MaxLevel - rng.Intn(3)
+		if c.O.MinLevel == 0 && c.O.MaxLevel == 0 {
+			c.O.MinLevel = -1
+		}
+		if c.Levels != nil {
+			c.Levels = nil
+			for _, f := range []float64{1.4, 1.15, 1.02, 0.98, 0.85, 0.5, 0.2} {
+				c.Levels = append(c.Levels, nat-int(d0*f))
+			}
 		}
 	}
 	c.Min, c.Max = F64(mn), F64(mx)
@@ -495,7 +589,7 @@ func c17LogCase(rng *rand.Rand) c17Case {
 	} else {
 		c.Levels = []int{-1, 0, 1, 2, 3}
 	}
-	if rng.Intn(20) == 0 {
+	if rng.Intn(30) == 0 {
 		// level limits (and per-level observations) around the level where the effective base
 		// overflows float64 (findings hI-c17-1, hI-c17-2)
 		ov := int(math.Ceil(math.Log2(1024 * math.Ln2 / math.Log(float64(b)))))
